@@ -330,6 +330,53 @@ def iso_readings(s):
     return [r for r in (loose_time(s), iso_time(s), iso_positional(s)) if r is not None]
 
 
+TZ_TAIL = re.compile(r"\s*(?:Z|z|[+-]\d{2}(?::?\d{2}(?::?\d{2}(?:\.\d+)?)?)?)?\s*$")
+
+
+def consistent(text, v):
+    """Is the 7-list `v` a possible reading of the time text?  Parser-independent rule: after dropping a trailing UTC
+    designator / offset, the digits of the text must be the digits of v's canonical text "YYYYMMDDhhmmssffffff" in order,
+    where only zeros of the canonical text may be missing (no leading zeros, omitted time parts, short fraction)."""
+    if not isinstance(text, str) or not isinstance(v, list) or not valid7(v):
+        return False
+    body = TZ_TAIL.sub("", text, count=1)
+    m = re.search(r"[.,](\d+)$", body)
+    if m and len(m.group(1)) > 6:
+        body = body[:m.start(1) + 6]              # excess fraction digits are cut
+    digits = re.sub(r"\D", "", body)
+    canon = "%04d%02d%02d%02d%02d%02d%06d" % tuple(v)
+    if not digits or not digits.isascii():
+        return False
+    memo = {}
+
+    def go(i, j):
+        if j == len(digits):
+            return all(c == "0" for c in canon[i:])
+        if i == len(canon):
+            return False
+        if (i, j) not in memo:
+            r = canon[i] == digits[j] and go(i + 1, j + 1)
+            memo[(i, j)] = r or (canon[i] == "0" and go(i + 1, j))
+        return memo[(i, j)]
+    return go(0, 0)
+
+
+def time_matches(want, got):
+    return want == got if isinstance(want, list) else (isinstance(got, list) and consistent(want["text"], got))
+
+
+def cache_matches(got, want):
+    """like same_cache, but a wanted time may be {"text": t}: any reading consistent with that text"""
+    if len(got) != len(want):
+        return False
+    for g, w in zip(got, want):
+        if type(g[0]) is not type(w[0]) or g[0] != w[0] or g[3] != w[3]:
+            return False
+        if not time_matches(w[1], g[1]) or not time_matches(w[2], g[2]):
+            return False
+    return True
+
+
 def valid7(v):
     y, mo, d, h, mi, s, us = v
     if not (1 <= y <= 9999 and 1 <= mo <= 12 and h < 24 and mi < 60 and s < 60 and us < 10 ** 6):
@@ -377,9 +424,7 @@ def judge_document(value):
                 return ("bad", "time-type", None)
             s = strict_time(t)
             if s is None:
-                s = (iso_readings(t) or [None])[0]
-                if s is None:
-                    return ("bad", "time-text", None)
+                s = {"text": t}       # non-canonical text: may be rejected, or accepted with a consistent value
                 if status == "good":
                     status, why = "loose", "time-text"
             v.append(s)
@@ -546,13 +591,12 @@ def parse_case(ck, batch, s):
     except Exception:      # noqa  (any exception ends in load_cache's warning branch)
         got = None
     want_strict = strict_time(s)
-    readings = iso_readings(s)
     # oracle: a canonical text must be read as itself; any other text may be rejected or accepted, but an accepted text
-    # must get a value consistent with an ISO reading of it (which parser typhon uses is not part of the property)
+    # must get a value consistent with its digits (which parser typhon uses is not part of the property)
     if want_strict is not None and got != want_strict:
         ck.violation("time-parse", f"canonical text {s!r} read as {got}", case)
-    elif isinstance(got, list) and got not in readings:
-        ck.violation("time-parse", f"text {s!r} read as {got}, no ISO reading gives that ({readings})", case)
+    elif isinstance(got, list) and not consistent(s, got):
+        ck.violation("time-parse", f"text {s!r} read as {got}: not a reading of these digits", case)
     ck.case(key=("parse", s) if got is not None else None, kind="time/parse-" + ("ok" if isinstance(got, list) else "err"),
             sample={"text": s, "parsed": got})
 
@@ -828,7 +872,7 @@ def corrupt_case(ck, batch, d, content, label, preload, use_init):
         else:
             if verdict[0] == "tolerated":
                 ck.count("tolerated-accept/" + verdict[1])
-            if not same_cache(got, want):
+            if not cache_matches(got, want):
                 ck.violation("load-wrong", f"{label}: loaded cache {got[:2]} differs from the document {want[:2]}", case)
     nontriv = isinstance(content, bytes) and len(content) > 2
     ck.case(key=("corrupt", label, case["content_hex"]) if nontriv else None, kind="corrupt/" + label.split("@")[0],
